@@ -68,15 +68,12 @@ func init() {
 			status := ""
 			ast.Inspect(is.Body, func(n ast.Node) bool {
 				if ce, ok := n.(*ast.CallExpr); ok {
-					switch r.Src(ce.Fun) {
-					case "prepareErrorResponse":
-						if len(ce.Args) > 0 {
-							status = r.Src(ce.Args[0])
-						}
-					case "v.signer.Verify":
-						if len(ce.Args) == 1 {
-							verifyArg = r.Src(ce.Args[0])
-						}
+					// the error-response helper (a local function literal, whatever its name): first argument = status
+					if _, isIdent := ce.Fun.(*ast.Ident); isIdent && len(ce.Args) > 0 && strings.HasPrefix(r.Src(ce.Args[0]), "http.Status") {
+						status = r.Src(ce.Args[0])
+					}
+					if r.Src(ce.Fun) == "v.signer.Verify" && len(ce.Args) == 1 {
+						verifyArg = r.Src(ce.Args[0])
 					}
 				}
 				return true
